@@ -84,6 +84,7 @@ def validate(c, events, files_path, max_fail=8, timeout=1500):
             for t in r.tuples("STEP"):
                 k = t[1].strip('"')
                 st[k] = st.get(k, 0) + 1
+            st["(shared)"] = st.get("(shared)", 0) + len(r.tuples("SHARED"))
             c.ext9_steps = st
             break
         why = ""
@@ -383,7 +384,7 @@ def run_models(c):
         ("GeoIP_sanity_len.cfg", "DesiredLength", 1, "sanity: a narrow network replaces a broad one (distance rule)"),
     ]
     if th:
-        jobs.append(("GeoIP_mc_big.cfg", None, 12, "more addresses (IPv6, unknown), two hosts, 3 answers, 3 refreshes"))
+        jobs.append(("GeoIP_mc_big.cfg", None, 12, "6 addresses (IPv4, mapped, IPv6, unknown), two hosts, 2 answers, 2 refreshes"))
 
     def one(j):
         cfg, exp, nw, name = j
@@ -436,7 +437,7 @@ def run(c: Check):
     rng = random.Random(SEED * 7919 + 13)
     ov, nsites = gate_rewrites(c)
     if nsites != 3:
-        c.notes.append("file.go has %d critical sections under the write lock (3 expected)" % nsites)
+        c.notes.append("file.go has %d critical sections under the write lock (the pinned tree has 3)" % nsites)
     worlds = [gen_world(rng, "w%d" % (i + 1)) for i in range(6 if th else 3)]
     open(os.path.join(c.specdir, "GeoIP_simw.tla"), "w").write(render_worlds(worlds))
     with ThreadPoolExecutor(max_workers=3) as ex:
@@ -648,7 +649,11 @@ def report(c, ev, fails, nonconf, steps, acts, cand):
             c.notes.append("observation: %s is rejected by the reader check of geoIPFromFile (it looks 0.0.0.0 up into a nil "
                            "interface): Refresh says %r" % (e["what"], e["err"][:200]))
         prev = e
-    stepcnt = c.ext9_steps
+    stepcnt = dict(c.ext9_steps)
+    nshared = stepcnt.pop("(shared)", 0)
+    c.notes.append("observation: %d cache hits returned the data of ANOTHER address under the same cache key although the "
+                   "databases have a different record for the asked address (networks narrower than /24 or /56, e.g. the "
+                   "/28../31 networks of the shipped City database): the documented granularity of the key, order dependent" % nshared)
     nev = {}
     for e in ev:
         nev[e["ev"]] = nev.get(e["ev"], 0) + 1
@@ -663,7 +668,7 @@ def report(c, ev, fails, nonconf, steps, acts, cand):
     c.sample({"first_events": [short(e) for e in ev[1:9]]})
     expected_cand = set(w["id"] for w in cand)
     unexpected = failed_worlds - expected_cand
-    if not unexpected:
+    if not unexpected and not c.violations:
         need_acts = {"Put", "RStart", "RSwapLoc", "RSwapCtry", "RJoin", "RSwapDB", "Data", "Subnet"}
         miss = [a for a in need_acts if acts.get(a, 0) < 3]
         need_steps = {"exact", "top", "country", "zero", "hack"}
